@@ -121,6 +121,7 @@ type xferDir struct {
 	dcep      []bool
 	gaps      []time.Duration
 	preopen   bool
+	rxOpened  bool // the receiving side's Stream object exists (set by the pre-open task)
 	readDelay time.Duration
 	readPause int           // pause after this many reads (0 = never)
 	pauseFor  time.Duration // length of the pause
@@ -175,6 +176,7 @@ type xfer struct {
 	odd       []*msgRec // calls that must have had no effect
 	hostile   bool      // C03: an adversary forges packets (forward-TSNs may purge a reliable stream's queue at any time)
 	seqBase   bool      // C16: every stream starts its SSN / MID spaces at the run's base (white-box, both ends)
+	pokes     bool      // C19: both ends call ActiveHeartbeat at seeded moments (whatever state they and the peer are in)
 }
 
 func newXfer(w *world) *xfer {
@@ -246,6 +248,28 @@ func (x *xfer) start() {
 		}
 	}
 	x.bufSize = maxMsg + 64
+	if x.pokes {
+		for _, ep := range w.eps {
+			ep := ep
+			n := w.wtape.intn(4)
+			gaps := make([]time.Duration, n)
+			for i := range gaps {
+				gaps[i] = time.Duration(w.wtape.intn(3000)) * time.Millisecond
+			}
+			w.sim.spawnClient("poke."+ep.name, ep.name, func() {
+				for _, g := range gaps {
+					h := vsimBlocking("client.sleep")
+					time.Sleep(g)
+					vsimWoke(h)
+					if w.tornDown || w.stopped() {
+						return
+					}
+					ep.assoc.ActiveHeartbeat()
+					w.apiEvent(ep, "heartbeat", "")
+				}
+			})
+		}
+	}
 	for _, ep := range w.eps {
 		ep := ep
 		w.sim.spawnClient("accept."+ep.name, ep.name, func() {
@@ -275,6 +299,7 @@ func (x *xfer) start() {
 				if err == nil {
 					x.gotStream(recv, d.sid, s)
 				}
+				d.rxOpened = true
 			})
 		}
 		w.sim.spawnClient(fmt.Sprintf("writer.%s.%d", sender.name, d.sid), sender.name, func() {
@@ -286,6 +311,14 @@ func (x *xfer) start() {
 			}
 			st := x.gotStream(sender, d.sid, s)
 			d.tx = st
+			// the recorded finding KF5 (a FORWARD-TSN for a stream the receiver has not created yet is ignored) is kept
+			// out of the search by pre-opening partially reliable streams at the receiver: the exclusion must not depend
+			// on the pre-open task winning a race against the first abandoned message
+			for d.preopen && !d.reliable() && !d.rxOpened && w.params["kf_fwd_unknown"] == 0 && !w.tornDown && !w.stopped() {
+				h := vsimBlocking("client.sleep")
+				time.Sleep(time.Millisecond)
+				vsimWoke(h)
+			}
 			s.SetReliabilityParams(d.unordered, d.relType, d.relVal)
 			d.curUnordered = d.unordered
 			for i, n := range d.sizes {
